@@ -94,6 +94,12 @@ fn small_alphabet(table: &Table, f: &FieldDef) -> Vec<Val> {
             Len::LLL => vec![Val::Text(String::new()), Val::Text(s(3)), Val::Text(s(128)), Val::Text(s(999))],
             _ => vec![Val::Text(String::new()), Val::Text(s(3)), Val::Text(s(128)), Val::Text(s(300)), Val::Text(s(4096)), Val::Text(s(40_000))],
         },
+        Enc::Utf8 => match &f.len {
+            // Fixed<4>: four bytes in both spellings
+            Len::Fixed(n) => vec![Val::Text(s(*n)), Val::Text("\u{e4}\u{f6}".chars().cycle().take(n / 2).collect())],
+            Len::LL => vec![Val::Text(String::new()), Val::Text(s(1)), Val::Text("Ger\u{e4}t \u{20ac}".into()), Val::Text("\u{1f980}\u{2192}\u{4e2d}".into())],
+            _ => vec![Val::Text(String::new()), Val::Text(s(3)), Val::Text("Ger\u{e4}t \u{20ac}".into()), Val::Text("\u{1f980}\u{2192}\u{4e2d}".repeat(40))],
+        },
         Enc::HexS => match &f.len {
             Len::Fixed(n) => vec![Val::Hex("0123abcd".chars().cycle().take(n * 2).collect()), Val::Hex("ff".repeat(*n))],
             Len::LL => vec![Val::Hex(String::new()), Val::Hex("00".into()), Val::Hex("a5".repeat(99))],
